@@ -187,7 +187,8 @@ Fixpoint next_tab (tab : list (Z * Z)) (w : Z) : Z :=
   end.
 
 (* one observed step: the label, what the implementation called on its collaborators while handling it,
-   the value of the `state` property right afterwards (when recorded), and - for LOpen and LOpenDone - the
+   the value of the `state` property right afterwards (when recorded; 0 = Closed, 1 = Idle, 2 = other;
+   compared when the model's answer does not depend on the sink underneath), and - for LOpen and LOpenDone - the
    outcome of the connect attempt the underlying Open made on the (fake) network *)
 Record ostep := { o_label : label; o_outs : list out; o_state : option Z; o_conn : option bool }.
 
@@ -214,7 +215,7 @@ Fixpoint replay (c : case) (s : state) (pend : bool) (os : list ostep) (n : Z) :
       | None => (n, s, false)
       | Some (s', outs) =>
           let outs_ok := list_eqb out_eqb outs (o_outs o) in
-          let st_ok := match o_state o with None => true | Some z => z =? obs_state s' end in
+          let st_ok := match o_state o with None => true | Some z => (obs_state s' =? 2) || (z =? obs_state s') end in
           (* interface contract of the underlying sink (honest_open) on this step *)
           let honest := match o_label o, o_conn o with
                         | LOpenDone ok, Some reach => Bool.eqb ok reach
@@ -224,7 +225,7 @@ Fixpoint replay (c : case) (s : state) (pend : bool) (os : list ostep) (n : Z) :
                         end in
           let pend' := match o_label o, o_conn o with
                        | LOpen, Some false => true
-                       | LFault, _ => false
+                       | LFault, _ | LClose, _ => false
                        | _, _ => pend
                        end in
           if outs_ok && st_ok && honest then replay c s' pend' r (n + 1) else (n, s, false)
